@@ -321,7 +321,7 @@ fn space_minidump_modules(max_len: u32) -> Space {
 // *_proxy environment variables, set before the first client is built); every request the lookups of one
 // module cause is logged by the proxy, whatever host or scheme it is addressed to
 
-const TOKENS: [&str; 14] = ["a", ".", "..", "%2e", "%2E", ":", "https:", "http:", "/", "\\", "?", "#", "%", "@"];
+const TOKENS: [&str; 15] = ["a", ".", "..", "%2e", "%2E", ":", "https:", "http:", "/", "\\", "?", "#", "%", "@", "\0"];
 const WIRE_ROOT: &str = "/root/symbols/";
 
 static PROXY_CELL: std::sync::OnceLock<Proxy> = std::sync::OnceLock::new();
@@ -347,8 +347,13 @@ fn start_proxy() -> Proxy {
                     while let Some(end) = pending.windows(4).position(|w| w == b"\r\n\r\n") {
                         let head = String::from_utf8_lossy(&pending[..end]).to_string();
                         pending.drain(..end + 4);
-                        log3.lock().unwrap().push(head.lines().next().unwrap_or("").to_string());
-                        if c.write_all(b"HTTP/1.1 404 Not Found\r\nContent-Length: 0\r\n\r\n").is_err() {
+                        let line = head.lines().next().unwrap_or("").to_string();
+                        // symbol files are served (a minimal valid one), so that the cache gets written; the rest is 404
+                        let is_sym = line.split(' ').nth(1).is_some_and(|t| t.split(['?', '#']).next().unwrap_or("").ends_with(".sym"));
+                        log3.lock().unwrap().push(line);
+                        const BODY: &str = "MODULE Linux x86 000000000000000000000000000000000 x\n";
+                        let resp = if is_sym { format!("HTTP/1.1 200 OK\r\nContent-Length: {}\r\n\r\n{BODY}", BODY.len()) } else { "HTTP/1.1 404 Not Found\r\nContent-Length: 0\r\n\r\n".to_string() };
+                        if c.write_all(resp.as_bytes()).is_err() {
                             return;
                         }
                     }
@@ -430,14 +435,16 @@ fn space_wire(max_len: u32) -> Space {
         SUP.with(|cell| {
             let mut c = cell.borrow_mut();
             if c.is_none() {
-                let dir = std::env::temp_dir().join(format!("verif-c17-{}-{:?}", std::process::id(), std::thread::current().id()));
+                // cache and tmp directories three levels down, so that a path climbing out of them still lands in `dir`
+                let dir = std::env::temp_dir().join(format!("verif-c17-{}-{:?}", std::process::id(), std::thread::current().id()).replace(['(', ')'], ""));
                 let _ = std::fs::remove_dir_all(&dir);
-                std::fs::create_dir_all(dir.join("cache")).expect("cache dir");
-                std::fs::create_dir_all(dir.join("tmp")).expect("tmp dir");
-                let sup = breakpad_symbols::HttpSymbolSupplier::new(vec![format!("http://127.0.0.1:{}{}", proxy.port, WIRE_ROOT)], dir.join("cache"), dir.join("tmp"), vec![], std::time::Duration::from_secs(20));
+                std::fs::create_dir_all(dir.join("a/b/cache")).expect("cache dir");
+                std::fs::create_dir_all(dir.join("a/b/tmp")).expect("tmp dir");
+                let sup = breakpad_symbols::HttpSymbolSupplier::new(vec![format!("http://127.0.0.1:{}{}", proxy.port, WIRE_ROOT)], dir.join("a/b/cache"), dir.join("a/b/tmp"), vec![], std::time::Duration::from_secs(20));
                 *c = Some((sup, dir));
             }
-            let (sup, _) = c.as_ref().unwrap();
+            let (sup, dir) = c.as_ref().unwrap();
+            let dir = dir.clone();
             RT.with(|rt| {
                 rt.block_on(async {
                     use breakpad_symbols::SymbolSupplier;
@@ -446,6 +453,26 @@ fn space_wire(max_len: u32) -> Space {
                     let _ = sup.locate_file(&m, FileKind::ExtraDebugInfo).await;
                 })
             });
+            // the file system: whatever the lookups created lies inside the cache / tmp directories
+            let mut outside: Vec<String> = vec![];
+            for (d, allowed) in [(dir.clone(), vec!["a"]), (dir.join("a"), vec!["b"]), (dir.join("a/b"), vec!["cache", "tmp"])] {
+                for e in std::fs::read_dir(&d).into_iter().flatten().flatten() {
+                    let n = e.file_name().to_string_lossy().to_string();
+                    if !allowed.contains(&n.as_str()) {
+                        outside.push(e.path().display().to_string());
+                        let _ = if e.path().is_dir() { std::fs::remove_dir_all(e.path()) } else { std::fs::remove_file(e.path()) };
+                    }
+                }
+            }
+            let stray_root = std::path::Path::new("/ABCD1234ABCD1234ABCDABCD12345678a");
+            if stray_root.exists() {
+                outside.push(stray_root.display().to_string());
+                let _ = std::fs::remove_dir_all(stray_root);
+            }
+            if !outside.is_empty() {
+                l.outcome("file-outside-the-cache-directory");
+                l.violation("c17:cache:file-outside-the-cache-directory", format!("a module named {name:?} makes the HTTP supplier create {outside:?}, outside its cache and tmp directories"), json!({"name": name, "field": (["debug_file", "code_file", "both"][which as usize]), "created": outside}));
+            }
         });
         let lines: Vec<String> = proxy.log.lock().unwrap()[before..].to_vec();
         l.eval();
@@ -485,7 +512,7 @@ fn main() {
         let mut def = CheckDef::new(
             "C17",
             "exploration",
-            "bounded-exhaustive: every string of length <= N over {a . / \\ : C NUL é} as debug_file (code_file in {\"\", x.pdb, ../y}) and as code_file (debug_file in the same menu), every pair (debug_file absent or any string, code_file any string) of strings of length <= 3, each x 5 (debug id, code id) combinations, through breakpad_sym_lookup, extra_debuginfo_lookup, binary_lookup, lookup(module, kind) for the 3 FileKinds, moz_lookup of each of those, code_info_breakpad_sym_lookup; plus MinidumpModules read from synthesized dumps with every PDB name of length <= 3 x 4 module names, and MinidumpUnloadedModules. Every cache_rel / server_rel / path returned is judged textually (leading separator, X: prefix, `..` component under either separator) and, if textually clean, by Path::join onto a root + lexical normalisation. The server-URL half is observed on the wire: the real HttpSymbolSupplier (server URL with a root directory) looks up symbols, binary and debug file of a module named by every sequence of <= 3 [thorough 4] tokens over {a . .. %2e %2E : https: http: / \\ ? # % @} (as debug_file, as code_file, as both) while the process sends all HTTP(S) traffic through a logging loopback proxy: every request must be a GET to the configured host whose path lies under the root and has no segment that percent-decodes to `..`. evaluations = lookup calls judged (2 per FileLookup); distinct_nontrivial = distinct (leaf of debug_file, leaf of code_file, id combination) among modules for which at least one lookup exists.",
+            "bounded-exhaustive: every string of length <= N over {a . / \\ : C NUL é} as debug_file (code_file in {\"\", x.pdb, ../y}) and as code_file (debug_file in the same menu), every pair (debug_file absent or any string, code_file any string) of strings of length <= 3, each x 5 (debug id, code id) combinations, through breakpad_sym_lookup, extra_debuginfo_lookup, binary_lookup, lookup(module, kind) for the 3 FileKinds, moz_lookup of each of those, code_info_breakpad_sym_lookup; plus MinidumpModules read from synthesized dumps with every PDB name of length <= 3 x 4 module names, and MinidumpUnloadedModules. Every cache_rel / server_rel / path returned is judged textually (leading separator, X: prefix, `..` component under either separator) and, if textually clean, by Path::join onto a root + lexical normalisation. The server-URL half is observed on the wire: the real HttpSymbolSupplier (server URL with a root directory) looks up symbols, binary and debug file of a module named by every sequence of <= 3 [thorough 4] tokens over {a . .. %2e %2E : https: http: / \\ ? # % @} (as debug_file, as code_file, as both) while the process sends all HTTP(S) traffic through a logging loopback proxy: every request must be a GET to the configured host whose path lies under the root and has no segment that percent-decodes to `..`; symbol files are served, and whatever the supplier then creates on disk must lie inside its cache / tmp directories (placed three levels deep in a scratch directory that is listed after every case). evaluations = lookup calls judged (2 per FileLookup); distinct_nontrivial = distinct (leaf of debug_file, leaf of code_file, id combination) among modules for which at least one lookup exists.",
         );
         def.assumptions = vec![
             "the oracle is textual and platform independent; `.` components, empty components (`a//b`), NUL bytes and non-ASCII inside a name are not escapes and are accepted".into(),
@@ -495,6 +522,15 @@ fn main() {
         def.extra.insert("max_name_length".into(), json!(n));
         def.extra.insert("alphabet".into(), json!(["a", ".", "/", "\\", ":", "C", "NUL", "é"]));
         def.extra.insert("wire_tokens".into(), json!(TOKENS));
+        def.finish = Some(Box::new(|_, _| {
+            // scratch directories of the wire space
+            let prefix = format!("verif-c17-{}-", std::process::id());
+            for e in std::fs::read_dir(std::env::temp_dir()).into_iter().flatten().flatten() {
+                if e.file_name().to_string_lossy().starts_with(&prefix) {
+                    let _ = std::fs::remove_dir_all(e.path());
+                }
+            }
+        }));
         def.spaces = vec![space_one_field("debug_file", true, n), space_one_field("code_file", false, n), space_pairs(3), space_suffixed(n - 1), space_minidump_modules(3), space_wire(ctx.tier.pick(3, 4))];
         def
     })
